@@ -5,6 +5,10 @@ HERE = os.path.dirname(os.path.dirname(os.path.abspath(__file__)))
 PY = '/venv/bin/python'
 
 CHECKS = {
+ 'C12': dict(sec='2/C12', cat='exploration',
+   text='Real membership, window-lookup, reader and set_use_caps calls run on generated polygon lists and index lists; every verdict outside a derived rounding band is compared with a long-double evaluation of the cap definition (a cap\'s own centre is always asserted), and the same list is pushed through all four storage formats (.ply, FITS raw/converted incl. the one-cap 3D layout, window_read from blist+bcaps) as real files, all answers having to agree with the reference. Held on the classes observed, each witnessed by a required counter.',
+   note='Trusts numpy long double and vlib/refs/mangle_ref.py; astropy.io.fits as file writer; verdicts closer than 1e-9 (float32 caps 5e-5) in 1-x.p to a cap boundary are not asserted except a cap\'s own centre.',
+   tech='runtime monitoring: boundary recorder + long-double reference oracle with ambiguity bands + four-format differential through real files'),
  'C13': dict(sec='2/C13', cat='exploration',
    text='Generated abscissae, fitting problems and trace sets (arrays/scalars/float32/integer-typed, 1-13 basis functions of all four families, weights over six decades with zero weights, fixed coefficients, inputfunc, 1-6 traces with and without the BOSS jump, FITS-style tables, near-integer grid ranges) are run through the real bases, func_fit, xy2traceset/TraceSet and traceset2xy; bases are compared with numpy.polynomial, fits with an SVD weighted least-squares solution plus a conditioning-independent normal-equation test, evaluations with an independent normalisation/jump model, grid sizes in exact rationals. Held on the executions observed.',
    note='Trusts numpy.polynomial Vandermonde recurrences and numpy.linalg.lstsq and the module docstrings for the split basis and the x-jump; one float dtype per call, non-negative weights, >= ncoeff+1 weighted points, design condition <= 3e4; stated ambiguity bands for the H(x) step and near-integer grid ranges.',
